@@ -343,7 +343,7 @@ def scenarios(draw, *, max_machines=6, max_obs=4, max_nodes=6,
         sc["delay_model"] = {"prob": draw(st.sampled_from([0.0, 0.3, 0.5, 1.0])),
                              "dist": "normal",
                              "degree": draw(st.sampled_from(['LOW', 'MID', 'HIGH', 'NONE'])),
-                             "seed": draw(st.integers(0, 1000))}
+                             "seed": draw(st.one_of(st.sampled_from([0, 0, 1, 20]), st.integers(0, 1000)))}
     return sc
 
 
